@@ -16,29 +16,386 @@ def Abs (x : Ctx) (s : HashDrbg.State) : Prop :=
 def mcfg (hash : Bytes → Bytes) : Cfg := { hash := hash }
 def sparams (hash : Bytes → Bytes) : HashDrbg.Params := { hash := hash }
 
+/-! ### big-endian octet strings -/
+
+theorem foldl_os2i (b : Bytes) (acc : Nat) :
+    b.foldl (fun acc x => acc * 256 + x.toNat) acc = acc * 256 ^ b.length + os2i b := by
+  induction b generalizing acc with
+  | nil => simp [os2i]
+  | cons x xs ih =>
+    simp only [List.foldl_cons, os2i, List.length_cons]
+    rw [ih, ih (0 * 256 + x.toNat)]
+    simp [Nat.pow_succ, Nat.add_mul, Nat.mul_assoc, Nat.add_assoc, Nat.mul_comm 256]
+
+theorem os2i_nil : os2i [] = 0 := rfl
+
+theorem os2i_append (a b : Bytes) : os2i (a ++ b) = os2i a * 256 ^ b.length + os2i b := by
+  simp only [os2i, List.foldl_append]
+  rw [foldl_os2i]; rfl
+
+theorem os2i_cons (x : UInt8) (xs : Bytes) : os2i (x :: xs) = x.toNat * 256 ^ xs.length + os2i xs := by
+  have := os2i_append [x] xs
+  simpa [os2i] using this
+
+theorem os2i_snoc (xs : Bytes) (x : UInt8) : os2i (xs ++ [x]) = os2i xs * 256 + x.toNat := by
+  simp [os2i]
+
+theorem os2i_lt (b : Bytes) : os2i b < 256 ^ b.length := by
+  induction b with
+  | nil => simp [os2i]
+  | cons x xs ih =>
+    rw [os2i_cons, List.length_cons, Nat.pow_succ]
+    have hx : x.toNat < 256 := x.toNat_lt
+    have : x.toNat * 256 ^ xs.length ≤ 255 * 256 ^ xs.length := Nat.mul_le_mul_right _ (by omega)
+    omega
+
+theorem i2os_length (n k : Nat) : (i2os n k).length = k := by simp [i2os]
+
+theorem i2os_succ (n k : Nat) :
+    i2os n (k + 1) = UInt8.ofNat ((n / 256 ^ k) % 256) :: i2os n k := by
+  simp [i2os, List.range_succ]
+
+theorem os2i_i2os (n k : Nat) : os2i (i2os n k) = n % 256 ^ k := by
+  induction k with
+  | zero => simp [i2os, os2i, Nat.mod_one]
+  | succ k ih =>
+    rw [i2os_succ, os2i_cons, ih, i2os_length, Nat.mod_pow_succ]
+    simp [Nat.mul_comm, Nat.add_comm]
+
+theorem os2i_inj : ∀ (a b : Bytes), a.length = b.length → os2i a = os2i b → a = b := by
+  intro a
+  induction a with
+  | nil => intro b h _; cases b <;> simp_all
+  | cons x xs ih =>
+    intro b h he
+    cases b with
+    | nil => simp at h
+    | cons y ys =>
+      simp only [List.length_cons, Nat.add_right_cancel_iff] at h
+      rw [os2i_cons, os2i_cons, h] at he
+      have h1 := os2i_lt xs
+      have h2 := os2i_lt ys
+      rw [h] at h1
+      have hp : 0 < 256 ^ ys.length := Nat.pow_pos (by omega)
+      have e1 : (x.toNat * 256 ^ ys.length + os2i xs) / 256 ^ ys.length = x.toNat := by
+        rw [Nat.mul_comm, Nat.mul_add_div hp, Nat.div_eq_of_lt h1]; rfl
+      have e2 : (y.toNat * 256 ^ ys.length + os2i ys) / 256 ^ ys.length = y.toNat := by
+        rw [Nat.mul_comm, Nat.mul_add_div hp, Nat.div_eq_of_lt h2]; rfl
+      have hxy : x.toNat = y.toNat := by rw [← e1, ← e2, he]
+      have hxy' : x = y := UInt8.toNat_inj.mp hxy
+      subst hxy'
+      have : os2i xs = os2i ys := by omega
+      rw [ih ys h this]
+
+theorem i2os_os2i (b : Bytes) : i2os (os2i b) b.length = b := by
+  apply os2i_inj
+  · rw [i2os_length]
+  · rw [os2i_i2os, Nat.mod_eq_of_lt (os2i_lt b)]
+
+theorem i2os_os2i' (b : Bytes) (k : Nat) (h : b.length = k) : i2os (os2i b) k = b := by
+  subst h; exact i2os_os2i b
+
+
+/-! ### rand_add / rand_inc: byte adders, specified least-significant byte first and transferred by `reverse` -/
+
+/-- little-endian value -/
+def le2i : List UInt8 → Nat
+  | [] => 0
+  | x :: xs => x.toNat + 256 * le2i xs
+
+theorem os2i_reverse (l : Bytes) : os2i l.reverse = le2i l := by
+  induction l with
+  | nil => rfl
+  | cons x xs ih => rw [List.reverse_cons, os2i_snoc, ih, le2i]; omega
+
+theorem os2i_eq_le2i (l : Bytes) : os2i l = le2i l.reverse := by
+  rw [← os2i_reverse, List.reverse_reverse]
+
+theorem toNat_ofNat_mod (n : Nat) : (UInt8.ofNat (n % 256)).toNat = n % 256 := by
+  rw [UInt8.toNat_ofNat']; omega
+
+theorem randAddRev_spec : ∀ (a b : List UInt8) (c : Nat), a.length = b.length → c ≤ 1 →
+    le2i (randAddRev a b c).1 + (randAddRev a b c).2 * 256 ^ a.length = le2i a + le2i b + c
+    ∧ (randAddRev a b c).1.length = a.length ∧ (randAddRev a b c).2 ≤ 1 := by
+  intro a
+  induction a with
+  | nil => intro b c h hc; cases b <;> simp_all [randAddRev, le2i]
+  | cons x xs ih =>
+    intro b c h hc
+    cases b with
+    | nil => simp at h
+    | cons y ys =>
+      simp only [List.length_cons, Nat.add_right_cancel_iff] at h
+      have hx : x.toNat < 256 := x.toNat_lt
+      have hy : y.toNat < 256 := y.toNat_lt
+      obtain ⟨h1, h2, h3⟩ := ih ys ((x.toNat + y.toNat + c) / 256) h (by omega)
+      simp only [randAddRev, le2i, List.length_cons, toNat_ofNat_mod]
+      refine ⟨?_, by omega, h3⟩
+      rw [Nat.pow_succ, ← Nat.mul_assoc]
+      generalize (randAddRev xs ys ((x.toNat + y.toNat + c) / 256)).2 * 256 ^ xs.length = T at *
+      omega
+
+theorem randIncRev_spec : ∀ (a : List UInt8) (d : Nat), d + 255 < 2 ^ 32 →
+    le2i (randIncRev a d).1 + (randIncRev a d).2 * 256 ^ a.length = le2i a + d
+    ∧ (randIncRev a d).1.length = a.length := by
+  intro a
+  induction a with
+  | nil => intro d _; simp [randIncRev, le2i]
+  | cons x xs ih =>
+    intro d hd
+    have hx : x.toNat < 256 := x.toNat_lt
+    have hs : (x.toNat + d) % 2 ^ 32 = x.toNat + d := Nat.mod_eq_of_lt (by omega)
+    obtain ⟨h1, h2⟩ := ih ((x.toNat + d) / 256) (by omega)
+    simp only [randIncRev, le2i, List.length_cons, toNat_ofNat_mod, hs]
+    refine ⟨?_, by omega⟩
+    rw [Nat.pow_succ, ← Nat.mul_assoc]
+    generalize (randIncRev xs ((x.toNat + d) / 256)).2 * 256 ^ xs.length = T at *
+    omega
+
 /-- big-endian byte addition: rand_add -/
 theorem randAdd_spec (a b : Bytes) (h : a.length = b.length) :
     os2i (randAdd a b).1 + (randAdd a b).2 * 256 ^ a.length = os2i a + os2i b
     ∧ (randAdd a b).1.length = a.length ∧ (randAdd a b).2 ≤ 1 := by
-  sorry
+  have := randAddRev_spec a.reverse b.reverse 0 (by simpa using h) (by omega)
+  simpa [randAdd, os2i_reverse, os2i_eq_le2i a, os2i_eq_le2i b] using this
 
 /-- big-endian addition of a (possibly multi-byte) integer "digit": rand_inc -/
 theorem randInc_spec (a : Bytes) (d : Nat) (hd : d + 255 < 2 ^ 32) :
     os2i (randInc a d).1 + (randInc a d).2 * 256 ^ a.length = os2i a + d
     ∧ (randInc a d).1.length = a.length := by
-  sorry
+  have := randIncRev_spec a.reverse d hd
+  simpa [randInc, os2i_reverse, os2i_eq_le2i a] using this
 
-/-- rand_hash is Hash_df -/
-theorem randHash_eq_hashDf (hash : Bytes → Bytes) (hlen : ∀ b, (hash b).length = 32) (inp : Bytes) (n : Nat)
-    (hn : 8 * n < 2 ^ 32) (hcnt : (n + 31) / 32 ≤ 255) :
+theorem randAdd_mod (a b : Bytes) (h : a.length = b.length) :
+    os2i (randAdd a b).1 = (os2i a + os2i b) % 256 ^ a.length := by
+  obtain ⟨h1, h2, _⟩ := randAdd_spec a b h
+  rw [← h1, Nat.add_mul_mod_self_right, Nat.mod_eq_of_lt]
+  rw [← h2]; exact os2i_lt _
+
+theorem randInc_mod (a : Bytes) (d : Nat) (hd : d + 255 < 2 ^ 32) :
+    os2i (randInc a d).1 = (os2i a + d) % 256 ^ a.length := by
+  obtain ⟨h1, h2⟩ := randInc_spec a d hd
+  rw [← h1, Nat.add_mul_mod_self_right, Nat.mod_eq_of_lt]
+  rw [← h2]; exact os2i_lt _
+
+
+/-! ### rand_hash = Hash_df, rand_gen = Hashgen -/
+
+theorem take_flatMap_succ (f : Nat → Bytes) (hf : ∀ i, (f i).length = 32) (n rem : Nat) :
+    ((List.range (n + 1)).flatMap f).take rem
+      = (f 0).take (min 32 rem) ++ ((List.range n).flatMap (fun k => f (k + 1))).take (rem - 32) := by
+  rw [List.range_succ_eq_map, List.flatMap_cons, List.flatMap_map, List.take_append, hf 0]
+  congr 1
+  by_cases h : rem ≤ 32
+  · rw [Nat.min_eq_right h]
+  · rw [Nat.min_eq_left (by omega), List.take_of_length_le (by rw [hf]; omega),
+      List.take_of_length_le (by rw [hf]; omega)]
+
+theorem randHash_go (hash : Bytes → Bytes) (hlen : ∀ b, (hash b).length = 32) (inp j : Bytes) :
+    ∀ (n i rem : Nat) (acc : Bytes),
+      randHash.go (mcfg hash) inp j i n rem acc
+        = acc ++ ((List.range n).flatMap fun k =>
+            hash ([UInt8.ofNat ((1 + (i + k)) % 256)] ++ j ++ inp)).take rem := by
+  intro n
+  induction n with
+  | zero => intro i rem acc; simp [randHash.go]
+  | succ n ih =>
+    intro i rem acc
+    rw [randHash.go, ih, take_flatMap_succ _ (fun _ => hlen _)]
+    have e : ∀ k, 1 + (i + 1 + k) = 1 + (i + (k + 1)) := by intro k; omega
+    simp only [mcfg, List.append_assoc, Nat.add_zero, e]
+
+theorem i2os_mod (n k : Nat) : i2os (n % 256 ^ k) k = i2os n k := by
+  apply os2i_inj
+  · rw [i2os_length, i2os_length]
+  · rw [os2i_i2os, os2i_i2os, Nat.mod_mod]
+
+/-- rand_hash is Hash_df, for every output length (the counter byte and the 32-bit length field wrap
+    identically on both sides, so no bound on `n` is needed) -/
+theorem randHash_eq_hashDf_all (hash : Bytes → Bytes) (hlen : ∀ b, (hash b).length = 32) (inp : Bytes) (n : Nat) :
     randHash (mcfg hash) n inp = HashDrbg.hashDf (sparams hash) inp n := by
-  sorry
+  have hj : i2os (8 * n % 2 ^ 32) 4 = i2os (8 * n) 4 := i2os_mod (8 * n) 4
+  have e : ∀ k, 1 + (0 + k) = k + 1 := by intro k; omega
+  simp only [randHash, HashDrbg.hashDf, hj]
+  rw [randHash_go hash hlen]
+  simp only [mcfg, sparams, List.nil_append, e]
+
+
+/-- rand_hash is Hash_df (original statement; the two bounds are not needed, see `randHash_eq_hashDf_all`) -/
+theorem randHash_eq_hashDf (hash : Bytes → Bytes) (hlen : ∀ b, (hash b).length = 32) (inp : Bytes) (n : Nat)
+    (_hn : 8 * n < 2 ^ 32) (_hcnt : (n + 31) / 32 ≤ 255) :
+    randHash (mcfg hash) n inp = HashDrbg.hashDf (sparams hash) inp n :=
+  randHash_eq_hashDf_all hash hlen inp n
+
+theorem randGen_go (hash : Bytes → Bytes) (hlen : ∀ b, (hash b).length = 32) :
+    ∀ (n : Nat) (data : Bytes) (rem : Nat) (acc : Bytes), data.length = 55 →
+      randGen.go (mcfg hash) n data rem acc
+        = acc ++ ((List.range n).flatMap fun k =>
+            hash (i2os ((os2i data + k) % 256 ^ 55) 55)).take rem := by
+  intro n
+  induction n with
+  | zero => intro data rem acc _; simp [randGen.go]
+  | succ n ih =>
+    intro data rem acc hd
+    have hl : (randInc data 1).1.length = 55 := by rw [(randInc_spec data 1 (by omega)).2, hd]
+    have hv : os2i (randInc data 1).1 = (os2i data + 1) % 256 ^ 55 := by
+      rw [randInc_mod data 1 (by omega), hd]
+    have h0 : i2os ((os2i data + 0) % 256 ^ 55) 55 = data := by
+      have := os2i_lt data
+      rw [hd] at this
+      rw [Nat.add_zero, Nat.mod_eq_of_lt this]
+      exact i2os_os2i' data 55 hd
+    have e : ∀ k, ((os2i data + 1) % 256 ^ 55 + k) % 256 ^ 55 = (os2i data + (k + 1)) % 256 ^ 55 := by
+      intro k; omega
+    rw [randGen.go, ih _ _ _ hl, take_flatMap_succ _ (fun _ => hlen _), hv, h0]
+    simp only [mcfg, List.append_assoc, e]
 
 /-- rand_gen is Hashgen -/
 theorem randGen_eq_hashgen (hash : Bytes → Bytes) (hlen : ∀ b, (hash b).length = 32) (v : Bytes)
     (hv : v.length = 55) (n : Nat) :
     randGen (mcfg hash) v n = HashDrbg.hashgen (sparams hash) (os2i v) n := by
-  sorry
+  simp only [randGen, HashDrbg.hashgen]
+  rw [randGen_go hash hlen _ _ _ _ hv]
+  simp only [mcfg, sparams, List.nil_append, HashDrbg.modulus]
+
+
+/-! ### rand_bytes: the state update V := (V + H + C + ctr) mod 256^55 -/
+
+theorem os2i_take_drop (l : Bytes) (k : Nat) :
+    os2i l = os2i (l.take k) * 256 ^ (l.length - k) + os2i (l.drop k) := by
+  conv => lhs; rw [← List.take_append_drop k l]
+  rw [os2i_append, List.length_drop]
+
+/-- the 56 bytes (prefix byte, V) written by rand_bytes -/
+def nextV (v cc h : Bytes) (ctr : Nat) : Bytes :=
+  let v1 := (randAdd v cc).1
+  let r := randAdd (v1.drop 23) h
+  let hi := (randInc ([0x03] ++ v1.take 23) r.2).1
+  (randInc (hi ++ r.1) ctr).1
+
+theorem randBytes_eq (hash : Bytes → Bytes) (x : Ctx) (n : Nat) :
+    randBytes (mcfg hash) x n =
+      if n > 65536 then none
+      else some (randGen (mcfg hash) ((x.rand.drop 1).take 55) n,
+        { rand := nextV ((x.rand.drop 1).take 55) ((x.rand.drop 56).take 55)
+                    (hash ([0x03] ++ (x.rand.drop 1).take 55)) x.counter ++ (x.rand.drop 56).take 55,
+          counter := x.counter + 1, seeded := x.seeded }) := by
+  simp only [randBytes, mcfg, nextV]
+
+/-- the carries absorbed by the prefix byte do not matter: bytes 1..55 hold (V + H + C + ctr) mod 256^55 -/
+theorem update_spec (v cc h : Bytes) (ctr : Nat) (hv : v.length = 55) (hc : cc.length = 55)
+    (hh : h.length = 32) (hctr : ctr + 255 < 2 ^ 32) :
+    (nextV v cc h ctr).length = 56
+    ∧ os2i ((nextV v cc h ctr).drop 1) = (os2i v + os2i h + os2i cc + ctr) % 256 ^ 55 := by
+  show
+    let v1 := (randAdd v cc).1
+    let r := randAdd (v1.drop 23) h
+    let hi := (randInc ([0x03] ++ v1.take 23) r.2).1
+    let all := (randInc (hi ++ r.1) ctr).1
+    all.length = 56 ∧ os2i (all.drop 1) = (os2i v + os2i h + os2i cc + ctr) % 256 ^ 55
+  intro v1 r hi all
+  have ev1 : (randAdd v cc).1 = v1 := rfl
+  have er : randAdd (v1.drop 23) h = r := rfl
+  have ehi : (randInc ([0x03] ++ v1.take 23) r.2).1 = hi := rfl
+  have eall : (randInc (hi ++ r.1) ctr).1 = all := rfl
+  clear_value all hi r v1
+  obtain ⟨a1, a2, _⟩ := randAdd_spec v cc (by omega)
+  rw [ev1] at a1 a2
+  have hv1 : v1.length = 55 := by omega
+  have hd : (v1.drop 23).length = 32 := by rw [List.length_drop]; omega
+  have ht : (v1.take 23).length = 23 := by rw [List.length_take]; omega
+  obtain ⟨b1, b2, b3⟩ := randAdd_spec (v1.drop 23) h (by omega)
+  rw [er] at b1 b2 b3
+  obtain ⟨c1, c2⟩ := randInc_spec ([0x03] ++ v1.take 23) r.2 (by omega)
+  rw [ehi] at c1 c2
+  have hhi : hi.length = 24 := by rw [c2]; simp; omega
+  have hlo : r.1.length = 32 := by omega
+  obtain ⟨d1, d2⟩ := randInc_spec (hi ++ r.1) ctr hctr
+  rw [eall] at d1 d2
+  have hall : all.length = 56 := by rw [d2]; simp; omega
+  refine ⟨hall, ?_⟩
+  have e1 := os2i_take_drop v1 23
+  have e2 := os2i_take_drop all 1
+  have l1 := os2i_lt (v1.take 23)
+  have l2 := os2i_lt (v1.drop 23)
+  have l3 := os2i_lt r.1
+  have l4 := os2i_lt hi
+  have l5 := os2i_lt (all.drop 1)
+  have l6 := os2i_lt (all.take 1)
+  have l7 := os2i_lt v1
+  have l8 := os2i_lt v
+  have l9 := os2i_lt cc
+  have l10 := os2i_lt h
+  have la : (all.drop 1).length = 55 := by rw [List.length_drop]; omega
+  have lb : (all.take 1).length = 1 := by rw [List.length_take]; omega
+  have c3 : os2i ([0x03] ++ v1.take 23) = 3 * 256 ^ 23 + os2i (v1.take 23) := by
+    rw [List.singleton_append, os2i_cons, ht]; rfl
+  have c4 : ([0x03] ++ v1.take 23).length = 24 := by simp; omega
+  have d3 : (hi ++ r.1).length = 56 := by simp; omega
+  rw [c3, c4] at c1
+  rw [os2i_append, d3, hlo] at d1
+  rw [hd] at b1 l2
+  rw [hv] at a1 l8
+  rw [hv1] at e1 l7
+  rw [hall] at e2
+  rw [la] at l5
+  rw [lb] at l6
+  rw [hlo] at l3
+  rw [hhi] at l4
+  rw [hc] at l9
+  rw [hh] at l10
+  rw [ht] at l1
+  omega
+
+
+/-! ### rand_seed and the step / history refinement -/
+
+theorem hashDf_length (hash : Bytes → Bytes) (hlen : ∀ b, (hash b).length = 32) (inp : Bytes) :
+    (HashDrbg.hashDf (sparams hash) inp 55).length = 55 := by
+  have : (55 + 32 - 1) / 32 = 2 := by decide
+  simp only [HashDrbg.hashDf, sparams, this]
+  simp [List.range_succ, hlen]
+
+/-- the context written by rand_seed represents the state computed by instantiate / reseed -/
+theorem seed_abs (hash : Bytes → Bytes) (hlen : ∀ b, (hash b).length = 32) (inp : Bytes) :
+    let v := HashDrbg.hashDf (sparams hash) inp 55
+    let cc := HashDrbg.hashDf (sparams hash) ([0x00] ++ v) 55
+    Abs { rand := [0x00] ++ v ++ cc, counter := 1, seeded := true }
+      { v := os2i v,
+        c := os2i (HashDrbg.hashDf (sparams hash) ([0x00] ++ i2os (os2i v) 55) 55), ctr := 1 } := by
+  intro v cc
+  have hv : v.length = 55 := hashDf_length hash hlen inp
+  have hc : cc.length = 55 := hashDf_length hash hlen _
+  have e1 : (([0x00] ++ v ++ cc).drop 1).take 55 = v := by
+    simp [hv]
+  have e2 : (([0x00] ++ v ++ cc).drop 56).take 55 = cc := by
+    rw [List.drop_append, List.drop_of_length_le (by simp; omega)]
+    simp [hv, ← hc]
+  refine ⟨rfl, by simp; omega, ?_, ?_, rfl⟩
+  · simp only [e1]
+  · simp only [e2, i2os_os2i' v 55 hv]; rfl
+
+
+/-- first seeding -/
+theorem seed_refines (hash : Bytes → Bytes) (hlen : ∀ b, (hash b).length = 32) (d : Bytes) (hd : d ≠ []) :
+    (step (mcfg hash) init (.seed d)).2 = (HashDrbg.step (sparams hash) none (.seed d)).2
+    ∧ ∃ s', (HashDrbg.step (sparams hash) none (.seed d)).1 = some s' ∧ Abs (step (mcfg hash) init (.seed d)).1 s'
+        ∧ s'.ctr = 1 := by
+  have hne : d.isEmpty = false := by cases d <;> simp_all
+  have hstep : step (mcfg hash) init (.seed d) =
+      ({ rand := [0x00] ++ HashDrbg.hashDf (sparams hash) d 55
+          ++ HashDrbg.hashDf (sparams hash) ([0x00] ++ HashDrbg.hashDf (sparams hash) d 55) 55,
+         counter := 1, seeded := true }, .ok []) := by
+    simp only [step, randSeed, hne, init]
+    simp only [mcfg, Bool.not_false, if_true, Bool.false_eq_true, if_false]
+    rw [← mcfg, randHash_eq_hashDf_all hash hlen, randHash_eq_hashDf_all hash hlen]
+  have hspec : HashDrbg.step (sparams hash) none (.seed d) =
+      (some (HashDrbg.instantiate (sparams hash) d), .ok []) := by
+    simp only [HashDrbg.step, hne, Bool.false_eq_true, if_false]
+  rw [hstep, hspec]
+  refine ⟨rfl, _, rfl, ?_, rfl⟩
+  exact seed_abs hash hlen d
+
 
 /-- one step of the model refines one step of the specification -/
 theorem step_refines (hash : Bytes → Bytes) (hlen : ∀ b, (hash b).length = 32) (x : Ctx) (s : HashDrbg.State)
@@ -46,19 +403,83 @@ theorem step_refines (hash : Bytes → Bytes) (hlen : ∀ b, (hash b).length = 3
     (step (mcfg hash) x op).2 = (HashDrbg.step (sparams hash) (some s) op).2
     ∧ ∃ s', (HashDrbg.step (sparams hash) (some s) op).1 = some s' ∧ Abs (step (mcfg hash) x op).1 s'
         ∧ s'.ctr ≤ s.ctr + 1 := by
-  sorry
+  obtain ⟨hseeded, hrl, hV, hC, hK⟩ := habs
+  have hvl : ((x.rand.drop 1).take 55).length = 55 := by simp; omega
+  have hcl : ((x.rand.drop 56).take 55).length = 55 := by simp; omega
+  cases op with
+  | seed d =>
+    by_cases hne : d.isEmpty = true
+    · have h1 : step (mcfg hash) x (.seed d) = (x, .err) := by simp [step, randSeed, hne]
+      have h2 : HashDrbg.step (sparams hash) (some s) (.seed d) = (some s, .err) := by
+        simp [HashDrbg.step, hne]
+      rw [h1, h2]
+      exact ⟨rfl, s, rfl, ⟨hseeded, hrl, hV, hC, hK⟩, by omega⟩
+    · have hne : d.isEmpty = false := by simpa using hne
+      have hstep : step (mcfg hash) x (.seed d) =
+          ({ rand := [0x00] ++ HashDrbg.hashDf (sparams hash) ([0x01] ++ (x.rand.drop 1).take 55 ++ d) 55
+              ++ HashDrbg.hashDf (sparams hash)
+                  ([0x00] ++ HashDrbg.hashDf (sparams hash) ([0x01] ++ (x.rand.drop 1).take 55 ++ d) 55) 55,
+             counter := 1, seeded := true }, .ok []) := by
+        simp only [step, randSeed, hne, hseeded]
+        simp only [mcfg, Bool.not_true, Bool.false_eq_true, if_false]
+        rw [← mcfg, randHash_eq_hashDf_all hash hlen, randHash_eq_hashDf_all hash hlen]
+      have hspec : HashDrbg.step (sparams hash) (some s) (.seed d) =
+          (some (HashDrbg.reseed (sparams hash) s d), .ok []) := by
+        simp only [HashDrbg.step, hne, Bool.false_eq_true, if_false]
+      have hi : i2os s.v 55 = (x.rand.drop 1).take 55 := by
+        rw [← hV]; exact i2os_os2i' _ 55 hvl
+      rw [hstep, hspec]
+      refine ⟨rfl, _, rfl, ?_, by simp [HashDrbg.reseed]⟩
+      have := seed_abs hash hlen ([0x01] ++ (x.rand.drop 1).take 55 ++ d)
+      simpa only [HashDrbg.reseed, sparams, hi] using this
+  | gen n =>
+    by_cases hn : n > 65536
+    · have h1 : step (mcfg hash) x (.gen n) = (x, .err) := by simp [step, randBytes, hn]
+      have h2 : HashDrbg.step (sparams hash) (some s) (.gen n) = (some s, .err) := by
+        simp [HashDrbg.step, HashDrbg.generate, sparams, hn]
+      rw [h1, h2]
+      exact ⟨rfl, s, rfl, ⟨hseeded, hrl, hV, hC, hK⟩, by omega⟩
+    · obtain ⟨hall, hval⟩ := update_spec ((x.rand.drop 1).take 55) ((x.rand.drop 56).take 55)
+        (hash ([0x03] ++ (x.rand.drop 1).take 55)) x.counter hvl hcl (hlen _) (by omega)
+      generalize hA : nextV ((x.rand.drop 1).take 55) ((x.rand.drop 56).take 55)
+        (hash ([0x03] ++ (x.rand.drop 1).take 55)) x.counter = all at hall hval
+      have h1 : step (mcfg hash) x (.gen n) =
+          ({ rand := all ++ (x.rand.drop 56).take 55, counter := x.counter + 1, seeded := x.seeded },
+            .ok (randGen (mcfg hash) ((x.rand.drop 1).take 55) n)) := by
+        simp only [step, randBytes_eq, if_neg hn, hA]
+      have hi : i2os s.v 55 = (x.rand.drop 1).take 55 := by
+        rw [← hV]; exact i2os_os2i' _ 55 hvl
+      have h2 : HashDrbg.step (sparams hash) (some s) (.gen n) =
+          (some { v := (s.v + os2i (hash ([0x03] ++ (x.rand.drop 1).take 55)) + s.c + s.ctr) % 256 ^ 55,
+                  c := s.c, ctr := s.ctr + 1 },
+            .ok (HashDrbg.hashgen (sparams hash) s.v n)) := by
+        have : ¬ n > (sparams hash).maxReq := hn
+        simp only [HashDrbg.step, HashDrbg.generate, if_neg this]
+        simp only [sparams, HashDrbg.modulus, hi]
+      rw [h1, h2, randGen_eq_hashgen hash hlen _ hvl, hV]
+      refine ⟨rfl, _, rfl, ⟨hseeded, by simp; omega, ?_, ?_, by simp [hK]⟩, by simp⟩
+      · have e : ((all ++ (x.rand.drop 56).take 55).drop 1).take 55 = all.drop 1 := by
+          rw [List.drop_append, List.take_append, List.take_of_length_le (by simp; omega)]
+          simp [hall]
+        simp only [e, hval, hV, hC, hK]
+      · have e : ((all ++ (x.rand.drop 56).take 55).drop 56).take 55 = (x.rand.drop 56).take 55 := by
+          rw [List.drop_append, List.drop_of_length_le (by omega)]
+          simp [hall, List.take_take]
+        simp only [e, hC]
 
-/-- first seeding -/
-theorem seed_refines (hash : Bytes → Bytes) (hlen : ∀ b, (hash b).length = 32) (d : Bytes) (hd : d ≠ []) :
-    (step (mcfg hash) init (.seed d)).2 = (HashDrbg.step (sparams hash) none (.seed d)).2
-    ∧ ∃ s', (HashDrbg.step (sparams hash) none (.seed d)).1 = some s' ∧ Abs (step (mcfg hash) init (.seed d)).1 s'
-        ∧ s'.ctr = 1 := by
-  sorry
 
 /-- every history from related states yields the same outputs -/
 theorem run_refines (hash : Bytes → Bytes) (hlen : ∀ b, (hash b).length = 32) :
     ∀ (ops : List Op) (x : Ctx) (s : HashDrbg.State), Abs x s → s.ctr + ops.length + 256 < 2 ^ 31 →
       run (mcfg hash) x ops = HashDrbg.run (sparams hash) (some s) ops := by
-  sorry
+  intro ops
+  induction ops with
+  | nil => intro x s _ _; rfl
+  | cons op ops ih =>
+    intro x s habs hlen'
+    simp only [List.length_cons] at hlen'
+    obtain ⟨h1, s', hs', habs', hc⟩ := step_refines hash hlen x s habs (by omega) op
+    simp only [run, HashDrbg.run]
+    rw [h1, hs', ih _ s' habs' (by omega)]
 
 end Relic.Model.Drbg
